@@ -79,6 +79,20 @@ func (rm *RpcMultiplexer) closeError(err error) {
 	}
 }
 
+// WriteContext returns a context for a write made on behalf of a call before
+// anything else watches over it (a unary request, the opening of a stream):
+// it ends with ctx and when the connection's read side has failed, so that a
+// write blocked in the transport is released although no answer can arrive
+// any more and the caller may have no deadline.
+func (rm *RpcMultiplexer) WriteContext(ctx context.Context) (context.Context, context.CancelFunc) {
+	wctx, cancel := context.WithCancel(ctx)
+	stop := context.AfterFunc(rm.ctx, cancel)
+	return wctx, func() {
+		stop()
+		cancel()
+	}
+}
+
 func (rm *RpcMultiplexer) CallUnaryMethod(
 	ctx context.Context,
 	header *goatorepo.RequestHeader,
@@ -106,9 +120,14 @@ func (rm *RpcMultiplexer) CallUnaryMethod(
 		Body:   body,
 	}
 
-	err := rm.rw.Write(ctx, &rpc)
+	wctx, wcancel := rm.WriteContext(ctx)
+	err := rm.rw.Write(wctx, &rpc)
+	wcancel()
 	if err != nil {
 		log.Error().Err(err).Msg("CallUnaryMethod: conn.Write")
+		if rErr := rm.readErrorIfDone(); rErr != nil {
+			return nil, rErr
+		}
 		return nil, err
 	}
 
